@@ -53,8 +53,15 @@ var c18Tpls = map[string]string{
 	"u2.html": c18Pad + "{% extends base %}{% use ub %}{% block b %}[{{ block('cc') }}|{{ block('bb') }}]{% endblock %}",
 	"u3.html": c18Pad + "{% extends base %}{% use ub %}{% block b %}[{{ block('bb') }}]{% endblock %}",
 	"ub.html": c18Pad + "{% block bb %}UB{{ x }}{% endblock %}",
+	// every built-in filter of the Twig package applied to per-call operands (a long text for the string filters):
+	// state that a filter keeps outside the call - a shared converter, a scratch buffer - shows as a race or as
+	// another call's text
+	"tf.txt": "{% set t = x ~ ' the quick brown fox ' ~ y ~ ' " + c18Words + " ' ~ x %}{{ t|title }}|{{ t|upper }}|{{ t|lower }}|{{ t|capitalize }}|{{ t|reverse }}|{{ t|trim }}|{{ t|length }}|{{ t|url_encode }}|{{ t|nl2br }}|{{ t|striptags }}|{{ t|split(' ')|join(',') }}|{{ t|replace({'quick': x}) }}|{{ t|slice(2, 40) }}|{{ t|first }}{{ t|last }}|{{ t|json_encode }}|{{ t|format(x) }}|{{ t|convert_encoding('UTF-8', 'ISO-8859-1')|length }}|{{ t|default(y) }}|{{ t|raw }}",
+	"tn.txt": "{{ l|sort|join('-') }}|{{ l|reverse|join }}|{{ l|merge([x, y])|join(',') }}|{{ l|batch(2, x)|length }}|{{ l|keys|join }}|{{ l|first }}{{ l|last }}|{{ l|slice(1, 2)|join }}|{{ {'k': x, 'j': y}|merge({'i': x})|keys|sort|join }}|{{ -5|abs }}|{{ 3.75|round(1) }}|{{ 1234567.891|number_format(2, ',', '.') }}|{{ l|length }}|{{ l|json_encode }}|{{ '2020-02-03 04:05:06'|date('Y-m-d H:i') }}|{{ '2020-02-03'|date_modify('+1 day')|date('Y-m-d') }}|{{ nothing|default(x) }}",
 	"f.js":    "{% if x matches pat %}g('{{ y }}'){% endif %}{% for i in l %}{{ i }};{% endfor %}{{ x starts with pat ? 1 : 0 }}",
 }
+
+var c18Words = strings.Repeat("lorem ipsum dolor sit amet consectetur adipiscing elit sed do eiusmod tempor ", 9)
 
 var c18Pad = "{# " + strings.Repeat("padding so that the template is longer than any size threshold of a cache; ", 9) + "#}"
 
@@ -77,6 +84,7 @@ var c18Ops = []c18Op{
 	{false, "n.html", false, ""}, {false, "s1.html", true, "[A]"}, {false, "s2.html", true, "[B]"},
 	{false, "u1.html", false, ""}, {false, "u2.html", false, ""}, {false, "u3.html", false, ""},
 	{false, "mf.txt", false, ""}, {false, "mm.txt", false, "[<k>]|<j>|[[<i>]]"}, {false, "e1.html", false, ""}, {true, "e2.html", false, ""},
+	{false, "tf.txt", false, ""}, {false, "tn.txt", false, ""},
 }
 
 // c18Epoch makes template names and patterns unique per schedule / iteration ("a~17.html" is served like
@@ -444,7 +452,7 @@ func c18Levels(tier string) []core.Level {
 	// all pairs of the first 12 operations; the later ones (nested includes, nil-context calls, padded templates with
 	// use, failing / nested macros, templates that end early) with themselves, with the others of their kind and with
 	// two of the first (html with blocks, css with include)
-	group := map[int]int{13: 1, 14: 1, 15: 2, 16: 2, 17: 2, 18: 3, 19: 3, 20: 4, 21: 4}
+	group := map[int]int{13: 1, 14: 1, 15: 2, 16: 2, 17: 2, 18: 3, 19: 3, 20: 4, 21: 4, 22: 5, 23: 5}
 	paired := func(i, j int) bool {
 		if j < 12 || i == 0 || i == 3 || i == j {
 			return true
@@ -466,7 +474,7 @@ func c18Levels(tier string) []core.Level {
 		nTriples = len(triples)
 	}
 	lv := []core.Level{
-		{Name: "twig env: pairs of 22 operations (incl. the same one twice), all schedules with <= 1 preemption", Gen: func(emit func(core.Case)) { pairs(0, 1, emit) }},
+		{Name: "twig env: pairs of 24 operations (incl. the same one twice), all schedules with <= 1 preemption", Gen: func(emit func(core.Case)) { pairs(0, 1, emit) }},
 		{Name: fmt.Sprintf("twig env: all pairs, all schedules with <= %d preemptions", bound), Gen: func(emit func(core.Case)) { pairs(0, bound, emit) }},
 		{Name: "core env: all pairs, all schedules with <= 1 preemption", Gen: func(emit func(core.Case)) { pairs(1, 1, emit) }},
 		{Name: fmt.Sprintf("twig env: %d three-thread scenarios, all schedules with <= 2 preemptions", nTriples), Gen: func(emit func(core.Case)) {
@@ -482,6 +490,9 @@ func c18Levels(tier string) []core.Level {
 			for kind := 0; kind < kinds; kind++ {
 				for op := 0; op < n; op++ {
 					for k := 0; k <= 250; k++ {
+						if op >= 22 && k > 40 && k%10 != 0 {
+							continue // the filter operations have several hundred points each: the first 40 and every tenth
+						}
 						emit(core.Case{Fam: "barrier", N: []int{kind, 64, op, k}})
 					}
 				}
